@@ -364,4 +364,23 @@ example : let w := run World.empty [.newModel ⟨[]⟩, .create 0 0 true [], .cr
     members (setDiscard (copySet w (.all 0)) 0 0) (.set 0) = [2] ∧
     members (setDiscard (copySet w (.all 0)) 0 0) (.all 0) = [0, 2] := by decide
 
+/-- **Dropped models (r6).**  A history in which the program drops whole models (`dropModel`: the model and its agents
+    become garbage) is one of the histories of the theorems above, and whatever happened before - agents created, removed,
+    models dropped - the model constructed next has an empty registry and hands out `unique_id` 1 first: no model, alive or
+    dead, influences its id sequence.  (That a *dead* model's storage is reused by the runtime for the new one cannot be
+    said in a model without addresses; see design.d/C02.md.) -/
+theorem C02_new_model_numbers_from_one_also_after_dropped_models (ops : List Op) (m : Nat) (g : Rng) :
+    let w := run World.empty ops
+    dropModel w m = run World.empty (ops ++ dropModelOps w m) ∧
+    (step (dropModel w m) (.newModel g)).regs[(dropModel w m).regs.length]? = some (Reg.new g) := by
+  intro w
+  exact ⟨by simp [dropModel, run, w, List.foldl_append], by simp [step, newModel]⟩
+
+/-- non-vacuity: model 0 with three agents (one held) is dropped: none of its agents is alive, model 1 is untouched, the
+    next model starts at 1 -/
+example : let w := run World.empty [.newModel ⟨[]⟩, .newModel ⟨[]⟩, .create 0 0 true [], .create 1 1 true [], .create 0 0 false []]
+    let w' := step (dropModel w 0) (.newModel ⟨[]⟩)
+    (List.range 3).filter (alive w') = [1] ∧ members w' (.all 1) = [1] ∧
+    ((step w' (.create 2 0 false [])).info[3]?.map (·.uid)) = some 1 := by decide
+
 end Mesa.Agents
